@@ -247,11 +247,31 @@ Proof.
   unfold chunk_outcome. destruct (d_low ds a (cover ds a p)) as [so dk|e]; [|discriminate]. apply getter_mismatch. exact M.
 Qed.
 
-Lemma spec_must_fail_sound ds : spec_must_fail ds = true -> In K_BadChunk (load_errors ds).
+(* the spec's "must fail" is sound for the model on the S3 store (and on any store for mismatches) *)
+Lemma s3_store_level_not_absorbed : forall e,
+  isinst e K_StoreUnavailable || isinst e R_ConnectionError || isinst e R_ConnectTimeout = true ->
+  isinst (standard_errors (error_map SS3) e) K_ChunkNotFound = false.
 Proof.
-  unfold spec_must_fail. rewrite existsb_exists. intros ([a id] & Hin & M). cbn [fst snd] in M.
-  apply load_error_iff. exists a, id. split; [exact Hin|].
-  unfold chunk_outcome. destruct (d_low ds a id) as [so dk|e]; [|discriminate]. apply getter_mismatch. exact M.
+  assert (S : forall e, (negb (isinst e K_StoreUnavailable || isinst e R_ConnectionError || isinst e R_ConnectTimeout)
+                         || negb (isinst (standard_errors (error_map SS3) e) K_ChunkNotFound)) = true).
+  { apply sweep. vm_compute. reflexivity. }
+  intros e H. specialize (S e). rewrite H in S. cbn [negb orb] in S.
+  destruct (isinst (standard_errors (error_map SS3) e) K_ChunkNotFound); [discriminate S|reflexivity].
+Qed.
+
+Lemma spec_must_fail_sound ds : d_store ds = SS3 -> spec_must_fail ds = true -> load_errors ds <> [].
+Proof.
+  intros HS. unfold spec_must_fail. rewrite existsb_exists. intros ([a id] & Hin & M). cbn [fst snd] in M.
+  assert (X : exists e, chunk_outcome ds a id = Raise e).
+  { unfold chunk_outcome. destruct (d_low ds a id) as [so dk|e] eqn:E.
+    - cbn [mismatched store_level] in M. rewrite orb_false_r in M. exists K_BadChunk. apply getter_mismatch. exact M.
+    - cbn [mismatched store_level orb] in M. rewrite HS.
+      pose proof (s3_store_level_not_absorbed e M) as N.
+      pose proof (or_default_spec SS3 (LRaise e)) as S. cbn [get_chunk] in S. rewrite N in S. destruct S as [A B].
+      exists (standard_errors (error_map SS3) e). destruct vfw_getters as [G1 G2].
+      destruct (akind_of a); [rewrite G1|rewrite G2]; assumption. }
+  destruct X as [e R]. intro E0.
+  assert (Y : In e (load_errors ds)) by (apply load_error_iff; eauto). rewrite E0 in Y. destruct Y.
 Qed.
 
 (* ---------- unreachable / unauthorised stores ---------- *)
@@ -426,7 +446,7 @@ Qed.
    4 dumps x 2 channels x 1 product; vis time chunks (3, 1), flags time chunks (2, 2), weights (1, 3),
    weights_channel (2, 2); the file of vis chunk 0 (dumps 0..2) holds only the first 3 bytes of the magic string. *)
 Definition ex_files : list file_entry :=
-  [(A_VIS, [0; 0; 0], mkhdr [60; 99; 56] false [3%nat; 2%nat; 1%nat], Some [147; 78; 85])].
+  [(A_VIS, [0; 0; 0], mkhdr [60; 99; 56] false [3%nat; 2%nat; 1%nat], FBytes [147; 78; 85])].
 Definition ex_ds : dstore :=
   mk_dstore SNpy [[[3; 1]; [2]; [1]]; [[2; 2]; [2]; [1]]; [[1; 3]; [2]; [1]]; [[2; 2]; [2]]] [] ex_files
             [[11; 12; 13; 14; 15; 16; 17; 18]; [1; 2; 3; 4; 5; 6; 7; 16]; [1; 1; 1; 1; 1; 1; 1; 1]; [2; 2; 2; 2; 2; 2; 2; 2]].
